@@ -223,6 +223,12 @@ func convertSingleTimeWindow(windowValue reflect.Value, stopID string) ([2]time.
 		return tt, nil
 	}
 
+	if kind := windowValue.Kind(); kind != reflect.Slice && kind != reflect.Array {
+		return [2]time.Time{}, nmerror.NewInputDataError(
+			fmt.Errorf("window %v of stop %s is not a slice", windowValue, stopID),
+		)
+	}
+
 	if windowValue.Len() != 2 {
 		return [2]time.Time{}, nmerror.NewInputDataError(
 			fmt.Errorf(
